@@ -1,8 +1,10 @@
 package rules
 
 import (
+	"go/constant"
 	"go/token"
 	"go/types"
+	"sort"
 	"strings"
 
 	"golang.org/x/tools/go/ssa"
@@ -16,14 +18,590 @@ func init() {
 		Pkgs:      []string{"container"},
 		Run:       runC14,
 		Technique: "static analysis: must-pass-through path queries and guard dominance on go/ssa of container/ringbuffer.go (zeroing before the read index advances, wrap test after every index advance, full/empty/range guards and their error classes, slot-boundary operator)",
-		Explanation: "R1: every advance of the read index is preceded on all paths by a zero-value store (direct or via SliceFill with the zero value) into the backing array, so consumed slots do not keep references. " +
-			"R2: every non-reset store to the read or write index is followed, before the exit or the next use of that index, by the comparison of the updated index with len(buf) (== or >=) whose true edge resets it to 0 (or the stored value is taken modulo len(buf)). " +
-			"R3: the store in Write is dominated by the not-full edge of Len()==Cap() and the full edge returns an error wrapping ErrExhausted; the load in Read is dominated by the not-empty edge and the empty edge returns io.EOF; the load in At is dominated by the in-range edges of idx<0 || idx>=Len() and the out-of-range edge panics. " +
+		Explanation: "R1: every advance of the read index (in the methods of the ring and in the private helpers they call) is preceded on all paths by a zero-value store (direct, via SliceFill with the zero value, or via a helper that always does one of these) into the backing array or a sub-slice of it, so consumed slots do not keep references. " +
+			"R2: every non-reset store to the read or write index stores a value that is known to be a valid slot - taken modulo len(buf); guarded by value < len(buf) (or != len(buf)); a phi/helper result each alternative of which is 0 or so guarded; a count clamped to Len(); or (index + count clamped to Len()) - len(buf) on the >= len(buf) branch - or is followed, before the exit or the next use of that index, by the comparison of the updated index with len(buf) whose at-or-behind-the-end edge (true edge of ==, >=; false edge of !=, <) resets it to 0. " +
+			"R3: the store in Write is dominated by the not-full edge of Len()==Cap() and the full edge returns an error wrapping ErrExhausted; the load in Read is dominated by the not-empty edge (Len() != 0, or read index != write index) and the empty edge returns io.EOF; every load in At is dominated by the in-range edges of idx<0 || idx>=Len() and the out-of-range edge panics. " +
 			"R4: the constructor allocates size+1 slots and Cap() returns len(buf)-1. " +
 			"R6: the count a caller passes to Skip is clamped to Len() (guard or phi over the clamped edge) before it is added to an index. " +
-			"R5: where At folds read index + i back into the array, the fold (subtract len(buf)) is selected by the test >= len(buf): slot len(buf) does not exist.",
+			"R5: where At folds read index + i back into the array, the fold (subtract len(buf), as an offset variable, a re-assigned position or a separate load) is selected by the test >= len(buf), or is the remainder modulo len(buf): slot len(buf) does not exist.",
 		NotDecided: "FIFO order, the min(requested, Len) arithmetic of ReadN/Skip, the Len() formula: value statements. This is the thinnest claim of the twenty.",
 	})
+}
+
+// c14 holds the resolved roles of the ring buffer.
+type c14 struct {
+	*Ctx
+	ring         *types.Named
+	buf          *types.Var
+	rIdx, wIdx   *types.Var
+	lenFn, capFn *ssa.Function
+	pkg          *ssa.Package
+}
+
+func c14root(fn *ssa.Function) *ssa.Function {
+	for fn != nil && fn.Parent() != nil {
+		fn = fn.Parent()
+	}
+	return fn
+}
+
+func (k *c14) inPkg(fn *ssa.Function) bool {
+	r := c14root(fn)
+	return r != nil && r.Pkg != nil && r.Pkg == k.pkg && len(fn.Blocks) > 0
+}
+
+// closure returns fn and the in-package functions it reaches through static calls and function literals.
+func (k *c14) closure(fn *ssa.Function) []*ssa.Function {
+	seen := map[*ssa.Function]bool{}
+	var res []*ssa.Function
+	var rec func(f *ssa.Function)
+	rec = func(f *ssa.Function) {
+		if f == nil || seen[f] || !k.inPkg(f) {
+			return
+		}
+		seen[f] = true
+		res = append(res, f)
+		ir.Instrs(f, func(in ssa.Instruction) {
+			if ci, ok := in.(ssa.CallInstruction); ok {
+				rec(ir.StaticCallee(ci))
+			}
+			if mc, ok := in.(*ssa.MakeClosure); ok {
+				if cf, ok := mc.Fn.(*ssa.Function); ok {
+					rec(cf)
+				}
+			}
+		})
+	}
+	rec(fn)
+	return res
+}
+
+func (k *c14) isBufLoad(v ssa.Value) bool { _, ok := loadOfField(v, k.buf); return ok }
+
+// bufDerived: v is the backing array or a sub-slice of it (through re-slicing, local variables and phis).
+func (k *c14) bufDerived(v ssa.Value) bool { return k.bufDerivedRec(v, map[ssa.Value]bool{}) }
+
+func (k *c14) bufDerivedRec(v ssa.Value, seen map[ssa.Value]bool) bool {
+	v = ir.Resolve(v)
+	if v == nil || seen[v] {
+		return false
+	}
+	seen[v] = true
+	if k.isBufLoad(v) {
+		return true
+	}
+	switch x := v.(type) {
+	case *ssa.Slice:
+		return k.bufDerivedRec(x.X, seen)
+	case *ssa.Phi:
+		n := 0
+		for _, e := range x.Edges {
+			if ir.Resolve(e) == v {
+				continue
+			}
+			if !k.bufDerivedRec(e, seen) {
+				return false
+			}
+			n++
+		}
+		return n > 0
+	}
+	return false
+}
+
+func (k *c14) isLenBuf(v ssa.Value) bool {
+	call, ok := ir.Resolve(v).(*ssa.Call)
+	if !ok {
+		return false
+	}
+	cc := builtinCall(call, "len")
+	return cc != nil && k.isBufLoad(cc.Args[0])
+}
+
+func (k *c14) lenCall(v ssa.Value) bool {
+	call, ok := ir.Resolve(v).(*ssa.Call)
+	return ok && ir.StaticCallee(call) == k.lenFn
+}
+
+func (k *c14) capCall(v ssa.Value) bool {
+	call, ok := ir.Resolve(v).(*ssa.Call)
+	return ok && ir.StaticCallee(call) == k.capFn
+}
+
+func (k *c14) isIdxLoad(v ssa.Value) bool {
+	if _, ok := loadOfField(v, k.rIdx); ok {
+		return true
+	}
+	_, ok := loadOfField(v, k.wIdx)
+	return ok
+}
+
+// loadsElsewhere: a helper or function literal run by fn reads an element of the backing array or of a slice handed to it.
+func (k *c14) loadsElsewhere(fn *ssa.Function) bool {
+	found := false
+	for _, g := range k.closure(fn) {
+		if g == fn || g == k.lenFn || g == k.capFn {
+			continue
+		}
+		ir.Instrs(g, func(in ssa.Instruction) {
+			u, ok := in.(*ssa.UnOp)
+			if !ok || u.Op != token.MUL {
+				return
+			}
+			ia, ok := u.X.(*ssa.IndexAddr)
+			if !ok {
+				return
+			}
+			if k.bufDerived(ia.X) {
+				found = true
+			}
+			switch ir.Resolve(ia.X).(type) {
+			case *ssa.Parameter, *ssa.FreeVar:
+				if _, isSlice := ia.X.Type().Underlying().(*types.Slice); isSlice {
+					found = true
+				}
+			}
+		})
+	}
+	return found
+}
+
+// guardFacts are the branch facts that hold at b, with the facts established by boolean helpers of the package added: when
+// "h() is true" is known and h returns true at exactly one exit, whatever guards that exit (and the returned comparison)
+// holds as well.
+func (k *c14) guardFacts(b *ssa.BasicBlock) []ir.Fact { return k.expandFacts(ir.Facts(b), 0) }
+
+func (k *c14) expandFacts(fs []ir.Fact, depth int) []ir.Fact {
+	if depth > 2 {
+		return fs
+	}
+	res := append([]ir.Fact{}, fs...)
+	for _, f := range fs {
+		f = f.StripNot()
+		call, ok := ir.Resolve(f.Cond).(*ssa.Call)
+		if !ok {
+			continue
+		}
+		g := ir.StaticCallee(call)
+		if g == nil || !k.inPkg(g) || g.Signature.Results().Len() != 1 || !types.Identical(g.Signature.Results().At(0).Type(), types.Typ[types.Bool]) {
+			continue
+		}
+		var cands []ir.ExitPoint
+		for _, ep := range ir.ExitPoints(g) {
+			if cv := ir.ConstVal(ep.Result(0)); cv != nil && cv.Kind() == constant.Bool && constant.BoolVal(cv) != f.True {
+				continue
+			}
+			cands = append(cands, ep)
+		}
+		if len(cands) != 1 {
+			continue
+		}
+		var add []ir.Fact
+		if ir.ConstVal(cands[0].Result(0)) == nil {
+			add = append(add, ir.Fact{Cond: cands[0].Result(0), True: f.True})
+		}
+		add = append(add, cands[0].Facts()...)
+		res = append(res, k.expandFacts(add, depth+1)...)
+	}
+	return res
+}
+
+// zeroing: the instruction overwrites slots of the backing array with the zero value.
+func (k *c14) zeroing(in ssa.Instruction) bool {
+	switch x := in.(type) {
+	case *ssa.Store:
+		if ia, ok := x.Addr.(*ssa.IndexAddr); ok && k.bufDerived(ia.X) && ir.IsZeroConst(x.Val) {
+			return true
+		}
+	case *ssa.Call:
+		if strings.HasSuffix(ir.CalleeFullName(x), "container.SliceFill") && len(x.Call.Args) == 2 {
+			if k.bufDerived(x.Call.Args[0]) && ir.IsZeroConst(x.Call.Args[1]) {
+				return true
+			}
+		}
+	}
+	return false
+}
+
+// idxStore: in stores a non-reset value to index field f.
+func (k *c14) idxStore(in ssa.Instruction, f *types.Var) (ssa.Value, bool) {
+	_, v, ok := storeToField(in, f)
+	if !ok {
+		return nil, false
+	}
+	if c, isC := ir.ConstInt(v); isC && c == 0 {
+		return nil, false // reset
+	}
+	return v, true
+}
+
+func (k *c14) isReset(in ssa.Instruction, f *types.Var) bool {
+	if _, val, ok := storeToField(in, f); ok {
+		if c, isC := ir.ConstInt(val); isC && c == 0 {
+			return true
+		}
+	}
+	return false
+}
+
+// writesField: in stores to field f, directly or in an in-package callee.
+func (k *c14) writesField(in ssa.Instruction, f *types.Var) bool {
+	if _, _, ok := storeToField(in, f); ok {
+		return true
+	}
+	if ci, ok := in.(ssa.CallInstruction); ok {
+		if g := ir.StaticCallee(ci); g != nil && k.inPkg(g) {
+			return ir.MayReach(g, func(x ssa.Instruction) bool { _, _, ok := storeToField(x, f); return ok }, 4)
+		}
+		if ci.Common().StaticCallee() == nil && !ci.Common().IsInvoke() {
+			if _, isB := ci.Common().Value.(*ssa.Builtin); !isB {
+				return true // a function value: may be a closure over the ring
+			}
+		}
+	}
+	return false
+}
+
+// storeBetween: a write to field f can happen after load a and before load b (or the other way round).
+func (k *c14) storeBetween(a, b *ssa.UnOp, f *types.Var) bool {
+	fn := a.Parent()
+	if fn == nil || fn != b.Parent() {
+		return true
+	}
+	var ws []ssa.Instruction
+	ir.Instrs(fn, func(in ssa.Instruction) {
+		if k.writesField(in, f) {
+			ws = append(ws, in)
+		}
+	})
+	between := func(x, y ssa.Instruction) bool {
+		for _, s := range ws {
+			s := s
+			w1, e1 := (ir.Query{Fn: fn, From: x, Target: func(i ssa.Instruction) bool { return i == s }, Block: func(i ssa.Instruction) bool { return i == y }}).Find()
+			if e1 == nil && w1 == nil {
+				continue
+			}
+			w2, e2 := (ir.Query{Fn: fn, From: s, Target: func(i ssa.Instruction) bool { return i == y }, Block: func(i ssa.Instruction) bool { return i == x }}).Find()
+			if e2 != nil || w2 != nil {
+				return true
+			}
+		}
+		return false
+	}
+	return between(a, b) || between(b, a)
+}
+
+// sameVal: a and b denote the same number - the same SSA value, or structurally equal expressions over constants,
+// len(buf), len(x) and loads of the same field with no write to it in between.
+func (k *c14) sameVal(a, b ssa.Value, depth int) bool {
+	a, b = ir.Resolve(a), ir.Resolve(b)
+	if a == nil || b == nil {
+		return false
+	}
+	if a == b {
+		return true
+	}
+	if depth > 4 {
+		return false
+	}
+	if ka, ok := ir.ConstInt(a); ok {
+		kb, ok2 := ir.ConstInt(b)
+		return ok2 && ka == kb
+	}
+	switch x := a.(type) {
+	case *ssa.BinOp:
+		y, ok := b.(*ssa.BinOp)
+		if !ok || x.Op != y.Op {
+			return false
+		}
+		if k.sameVal(x.X, y.X, depth+1) && k.sameVal(x.Y, y.Y, depth+1) {
+			return true
+		}
+		if x.Op == token.ADD || x.Op == token.MUL {
+			return k.sameVal(x.X, y.Y, depth+1) && k.sameVal(x.Y, y.X, depth+1)
+		}
+	case *ssa.UnOp:
+		y, ok := b.(*ssa.UnOp)
+		if !ok || x.Op != token.MUL || y.Op != token.MUL {
+			return false
+		}
+		fa, ok1 := x.X.(*ssa.FieldAddr)
+		fb, ok2 := y.X.(*ssa.FieldAddr)
+		if !ok1 || !ok2 || ir.FieldOf(fa) == nil || ir.FieldOf(fa) != ir.FieldOf(fb) || !same(fa.X, fb.X) {
+			return false
+		}
+		return !k.storeBetween(x, y, ir.FieldOf(fa))
+	case *ssa.Call:
+		y, ok := b.(*ssa.Call)
+		if !ok {
+			return false
+		}
+		if k.isLenBuf(x) && k.isLenBuf(y) {
+			return true
+		}
+		cx, cy := builtinCall(x, "len"), builtinCall(y, "len")
+		if cx != nil && cy != nil {
+			return ir.Resolve(cx.Args[0]) == ir.Resolve(cy.Args[0])
+		}
+	}
+	return false
+}
+
+func c14edgeFacts(p *ssa.Phi, i int) []ir.Fact {
+	pred := p.Block().Preds[i]
+	fs := append([]ir.Fact{}, ir.Facts(pred)...)
+	return append(fs, edgeFacts(pred, p.Block())...)
+}
+
+// cmpVsLenBuf calls f for every fact of fs that compares something with len(buf), normalised to "a op len(buf)".
+func (k *c14) cmpVsLenBuf(fs []ir.Fact, f func(op token.Token, a ssa.Value)) {
+	for _, ft := range fs {
+		cm, ok := ft.Cmp()
+		if !ok {
+			continue
+		}
+		op, a, b := cm.Op, cm.X, cm.Y
+		if k.isLenBuf(a) {
+			a, b = b, a
+			op = ir.SwapOp(op)
+		}
+		if k.isLenBuf(b) {
+			f(op, a)
+		}
+	}
+}
+
+// belowLen: a fact of fs says v < len(buf) (or v != len(buf): the index never exceeds len(buf)).
+func (k *c14) belowLen(v ssa.Value, fs []ir.Fact) bool {
+	res := false
+	k.cmpVsLenBuf(fs, func(op token.Token, a ssa.Value) {
+		if (op == token.LSS || op == token.NEQ) && k.sameVal(a, v, 0) {
+			res = true
+		}
+	})
+	return res
+}
+
+// nonNeg: v is a count that cannot be negative.
+func (k *c14) nonNeg(v ssa.Value, fs []ir.Fact, depth int) bool {
+	v = ir.Resolve(v)
+	if v == nil || depth > 5 {
+		return false
+	}
+	if c, ok := ir.ConstInt(v); ok {
+		return c >= 0
+	}
+	if k.lenCall(v) || k.capCall(v) {
+		return true
+	}
+	for _, ft := range fs {
+		cm, ok := ft.Cmp()
+		if !ok {
+			continue
+		}
+		op, a, b := cm.Op, cm.X, cm.Y
+		if ir.Resolve(b) == v {
+			a, b = b, a
+			op = ir.SwapOp(op)
+		}
+		if ir.Resolve(a) != v {
+			continue
+		}
+		if c, ok := ir.ConstInt(b); ok && ((op == token.GEQ && c >= 0) || (op == token.GTR && c >= -1)) {
+			return true
+		}
+	}
+	switch x := v.(type) {
+	case *ssa.Call:
+		if _, isB := x.Call.Value.(*ssa.Builtin); isB {
+			switch x.Call.Value.Name() {
+			case "len", "cap", "copy":
+				return true
+			}
+		}
+	case *ssa.BinOp:
+		switch x.Op {
+		case token.SUB:
+			// len(buf) - index: the index never exceeds len(buf)
+			return k.isLenBuf(x.X) && k.isIdxLoad(x.Y)
+		case token.ADD:
+			return k.nonNeg(x.X, fs, depth+1) && k.nonNeg(x.Y, fs, depth+1)
+		}
+	case *ssa.Phi:
+		n := 0
+		for i, e := range x.Edges {
+			if ir.Resolve(e) == v {
+				continue
+			}
+			if !k.nonNeg(e, c14edgeFacts(x, i), depth+1) {
+				return false
+			}
+			n++
+		}
+		return n > 0
+	}
+	return false
+}
+
+// leLen: v is positively known not to exceed Len(): it is Len(), or guarded by v <= Len() / v < Len(), or a phi of
+// such values, or such a value minus a non-negative count.
+func (k *c14) leLen(v ssa.Value, fs []ir.Fact, depth int) bool {
+	v = ir.Resolve(v)
+	if v == nil || depth > 5 {
+		return false
+	}
+	if k.lenCall(v) {
+		return true
+	}
+	if c, ok := ir.ConstInt(v); ok {
+		return c <= 0
+	}
+	for _, ft := range fs {
+		cm, ok := ft.Cmp()
+		if !ok {
+			continue
+		}
+		op, a, b := cm.Op, cm.X, cm.Y
+		if k.lenCall(a) {
+			a, b = b, a
+			op = ir.SwapOp(op)
+		}
+		if k.lenCall(b) && (op == token.LEQ || op == token.LSS) && k.sameVal(a, v, 0) {
+			return true
+		}
+	}
+	switch x := v.(type) {
+	case *ssa.Phi:
+		n := 0
+		for i, e := range x.Edges {
+			if ir.Resolve(e) == v {
+				continue
+			}
+			if !k.leLen(e, c14edgeFacts(x, i), depth+1) {
+				return false
+			}
+			n++
+		}
+		return n > 0
+	case *ssa.BinOp:
+		if x.Op == token.SUB {
+			return k.leLen(x.X, fs, depth+1) && k.nonNeg(x.Y, fs, depth+1)
+		}
+	}
+	return false
+}
+
+// validSlot: the value v, about to be stored to an index field, is known to denote an existing slot (given that the
+// indices are valid slots and Len() < len(buf) when the method is entered).
+func (k *c14) validSlot(v ssa.Value, fs []ir.Fact, recv ssa.Value, depth int) bool {
+	v = ir.Resolve(v)
+	if v == nil || depth > 5 {
+		return false
+	}
+	if c, ok := ir.ConstInt(v); ok {
+		return c == 0
+	}
+	if bo, ok := v.(*ssa.BinOp); ok && bo.Op == token.REM && k.isLenBuf(bo.Y) {
+		return true
+	}
+	if k.belowLen(v, fs) {
+		return true
+	}
+	switch x := v.(type) {
+	case *ssa.Phi:
+		n := 0
+		for i, e := range x.Edges {
+			if ir.Resolve(e) == v {
+				continue
+			}
+			if !k.validSlot(e, c14edgeFacts(x, i), recv, depth+1) {
+				return false
+			}
+			n++
+		}
+		return n > 0
+	case *ssa.Call:
+		// a wrapping helper, recognised by what it returns: every exit yields a valid slot of the same ring
+		g := ir.StaticCallee(x)
+		if g == nil || !k.inPkg(g) || g == k.lenFn || g == k.capFn || g.Signature.Recv() == nil || len(x.Call.Args) == 0 || len(g.Params) == 0 {
+			return false
+		}
+		if recv == nil || !same(x.Call.Args[0], recv) {
+			return false
+		}
+		eps := ir.ExitPoints(g)
+		for _, ep := range eps {
+			if len(ep.Results) != 1 || !k.validSlot(ep.Results[0], ep.Facts(), g.Params[0], depth+1) {
+				return false
+			}
+		}
+		return len(eps) > 0
+	case *ssa.BinOp:
+		if x.Op == token.SUB && k.isLenBuf(x.Y) {
+			// (index + count) - len(buf) with count <= Len() < len(buf), taken on the >= len(buf) side
+			sum, ok := ir.Resolve(x.X).(*ssa.BinOp)
+			if !ok || sum.Op != token.ADD {
+				return false
+			}
+			cnt := sum.Y
+			if !k.isIdxLoad(sum.X) {
+				if !k.isIdxLoad(sum.Y) {
+					return false
+				}
+				cnt = sum.X
+			}
+			atOrBehind := false
+			k.cmpVsLenBuf(fs, func(op token.Token, a ssa.Value) {
+				if (op == token.GEQ || op == token.GTR) && k.sameVal(a, sum, 0) {
+					atOrBehind = true
+				}
+			})
+			return atOrBehind && k.leLen(cnt, fs, 0)
+		}
+	}
+	return k.leLen(v, fs, 0)
+}
+
+// wrapIf: the If instruction compares the index field f (or the value v just stored to it) with len(buf), and the edge
+// on which the index can be at/behind the end of the array resets it to 0.
+func (k *c14) wrapIf(x ssa.Instruction, f *types.Var, v ssa.Value) bool {
+	iff, ok := x.(*ssa.If)
+	if !ok {
+		return false
+	}
+	cm, ok := ir.AsCmp(iff.Cond)
+	if !ok {
+		return false
+	}
+	op, a, b := cm.Op, cm.X, cm.Y
+	if k.isLenBuf(a) {
+		a, b = b, a
+		op = ir.SwapOp(op)
+	}
+	if !k.isLenBuf(b) {
+		return false
+	}
+	hit := -1
+	switch op {
+	case token.EQL, token.GEQ:
+		hit = 0
+	case token.NEQ, token.LSS:
+		hit = 1
+	default:
+		return false
+	}
+	if _, isField := loadOfField(a, f); !isField && ir.Resolve(a) != ir.Resolve(v) {
+		return false
+	}
+	if len(iff.Block().Succs) != 2 {
+		return false
+	}
+	for _, y := range iff.Block().Succs[hit].Instrs {
+		if k.isReset(y, f) {
+			return true
+		}
+	}
+	return false
 }
 
 func runC14(c *Ctx) {
@@ -36,23 +614,28 @@ func runC14(c *Ctx) {
 		c.Fatalf("role ring type: NewRingBuffer does not return a named type")
 	}
 	c.Role("ring", ring.Obj().Name(), ring.Obj().Pos())
-	buf := c.oneField("ring.buf", ring, func(f *types.Var) bool { _, ok := f.Type().Underlying().(*types.Slice); return ok })
+	k := &c14{Ctx: c, ring: ring, pkg: c14root(ctor).Pkg}
+	k.buf = c.oneField("ring.buf", ring, func(f *types.Var) bool { _, ok := f.Type().Underlying().(*types.Slice); return ok })
 	method := func(name string) *ssa.Function {
 		return c.RequireFn(c.P.MethodOf(ring, name), "ring."+name)
 	}
 	write, read, at, lenFn, capFn := method("Write"), method("Read"), method("At"), method("Len"), method("Cap")
-	// read index = the int field Read advances by one; write index = the one Write advances
+	k.lenFn, k.capFn = lenFn, capFn
+	// read index = the int field Read advances (itself or in the private helpers it runs); write index = the one Write
+	// advances
 	advanced := func(fn *ssa.Function) *types.Var {
 		var res []*types.Var
 		for _, f := range fieldsWhere(ring, func(f *types.Var) bool { return types.Identical(f.Type(), types.Typ[types.Int]) }) {
 			found := false
-			ir.Instrs(fn, func(in ssa.Instruction) {
-				if _, v, ok := storeToField(in, f); ok {
-					if k, isC := ir.ConstInt(v); !isC || k != 0 {
-						found = true
+			for _, g := range k.closure(fn) {
+				ir.Instrs(g, func(in ssa.Instruction) {
+					if _, v, ok := storeToField(in, f); ok {
+						if kk, isC := ir.ConstInt(v); !isC || kk != 0 {
+							found = true
+						}
 					}
-				}
-			})
+				})
+			}
 			if found {
 				res = appendUniq(res, f)
 			}
@@ -68,52 +651,77 @@ func runC14(c *Ctx) {
 	if rIdx == wIdx {
 		c.Fatalf("read and write index resolve to the same field")
 	}
+	k.rIdx, k.wIdx = rIdx, wIdx
 
-	isBufLoad := func(v ssa.Value) bool { _, ok := loadOfField(v, buf); return ok }
-	isLenBuf := func(v ssa.Value) bool {
-		call, ok := ir.Resolve(v).(*ssa.Call)
-		if !ok {
-			return false
-		}
-		cc := builtinCall(call, "len")
-		return cc != nil && isBufLoad(cc.Args[0])
-	}
-	zeroing := func(in ssa.Instruction) bool {
-		switch x := in.(type) {
-		case *ssa.Store:
-			if ia, ok := x.Addr.(*ssa.IndexAddr); ok && isBufLoad(ia.X) && ir.IsZeroConst(x.Val) {
-				return true
+	isBufLoad := k.isBufLoad
+	isLenBuf := k.isLenBuf
+	// a helper that zeroes on every path counts as zeroing where it is called
+	zeroEff := ir.NewEffects(c.P, k.zeroing)
+	zeroing := zeroEff.Is
+
+	// the functions the rules look at: the methods of the ring and the private helpers (and function literals) they run
+	methods := c.P.MethodsOf(ring)
+	var scope []*ssa.Function
+	{
+		inScope := map[*ssa.Function]bool{}
+		var extra []*ssa.Function
+		for _, m := range methods {
+			if len(m.Blocks) > 0 {
+				inScope[m] = true
+				scope = append(scope, m)
 			}
-		case *ssa.Call:
-			if strings.HasSuffix(ir.CalleeFullName(x), "container.SliceFill") && len(x.Call.Args) == 2 {
-				if s, ok := ir.Resolve(x.Call.Args[0]).(*ssa.Slice); ok && isBufLoad(s.X) && ir.IsZeroConst(x.Call.Args[1]) {
-					return true
+		}
+		for _, m := range methods {
+			for _, g := range k.closure(m) {
+				if !inScope[g] {
+					inScope[g] = true
+					extra = append(extra, g)
 				}
 			}
 		}
-		return false
+		sort.Slice(extra, func(i, j int) bool { return ir.FnName(extra[i]) < ir.FnName(extra[j]) })
+		scope = append(scope, extra...)
 	}
-	// in-package callees that always zero+advance (Clear -> Skip) are covered by analysing every method
-	methods := c.P.MethodsOf(ring)
-	idxStore := func(in ssa.Instruction, f *types.Var) (ssa.Value, bool) {
-		_, v, ok := storeToField(in, f)
-		if !ok {
-			return nil, false
+	// floors are counted per API method: the exported methods from which an advance of the index is reached
+	apiReaching := func(fields ...*types.Var) int {
+		n := 0
+		for _, m := range methods {
+			if len(m.Blocks) == 0 || m.Object() == nil || !m.Object().Exported() {
+				continue
+			}
+			found := false
+			for _, g := range k.closure(m) {
+				ir.Instrs(g, func(in ssa.Instruction) {
+					for _, f := range fields {
+						if _, ok := k.idxStore(in, f); ok {
+							found = true
+						}
+					}
+				})
+			}
+			if found {
+				n++
+			}
 		}
-		if k, isC := ir.ConstInt(v); isC && k == 0 {
-			return nil, false // reset
-		}
-		return v, true
+		return n
 	}
-	for _, fn := range methods {
-		if len(fn.Blocks) == 0 {
-			continue
+	apiFloor := func(rule string, min int, fields ...*types.Var) {
+		n := apiReaching(fields...)
+		if c.R.Count(rule) == 0 {
+			n = 0
 		}
+		c.R.Floors[rule] = [2]int{min, n}
+		if n < min {
+			c.R.Errorf("rule %s covers %d API method(s) that advance the index, below its floor of %d: the anchored code changed shape and the rule would pass vacuously", rule, n, min)
+		}
+	}
+
+	for _, fn := range scope {
 		c.Saw(fn)
 		// R1
 		var advs []ssa.Instruction
 		ir.Instrs(fn, func(in ssa.Instruction) {
-			if _, ok := idxStore(in, rIdx); ok {
+			if _, ok := k.idxStore(in, rIdx); ok {
 				advs = append(advs, in)
 			}
 		})
@@ -135,46 +743,16 @@ func runC14(c *Ctx) {
 		for _, f := range []*types.Var{rIdx, wIdx} {
 			f := f
 			ir.Instrs(fn, func(in ssa.Instruction) {
-				v, ok := idxStore(in, f)
+				v, ok := k.idxStore(in, f)
 				if !ok {
 					return
 				}
-				if bo, isBin := ir.Resolve(v).(*ssa.BinOp); isBin && bo.Op == token.REM && isLenBuf(bo.Y) {
+				recv, _, _ := storeToField(in, f)
+				if k.validSlot(v, ir.Facts(in.Block()), recv, 0) {
 					c.Decide("C14.R2", fn, "index advance wraps ("+f.Name()+")", in, true, "")
 					return
 				}
-				isWrapIf := func(x ssa.Instruction) bool {
-					iff, ok := x.(*ssa.If)
-					if !ok {
-						return false
-					}
-					cm, ok := ir.AsCmp(iff.Cond)
-					if !ok {
-						return false
-					}
-					op, a, b := cm.Op, cm.X, cm.Y
-					if isLenBuf(a) {
-						a, b = b, a
-						op = ir.SwapOp(op)
-					}
-					if !isLenBuf(b) || (op != token.EQL && op != token.GEQ) {
-						return false
-					}
-					_, isField := loadOfField(a, f)
-					if !isField && ir.Resolve(a) != ir.Resolve(v) {
-						return false
-					}
-					// the true edge resets the index
-					reset := false
-					for _, y := range iff.Block().Succs[0].Instrs {
-						if _, val, ok := storeToField(y, f); ok {
-							if k, isC := ir.ConstInt(val); isC && k == 0 {
-								reset = true
-							}
-						}
-					}
-					return reset
-				}
+				isWrapIf := func(x ssa.Instruction) bool { return k.wrapIf(x, f, v) }
 				wrapOperand := func(x ssa.Instruction) bool {
 					// a load of the index whose only use is the wrap comparison
 					u, ok := x.(*ssa.UnOp)
@@ -204,32 +782,52 @@ func runC14(c *Ctx) {
 			})
 		}
 	}
-	c.R.Floor("C14.R1", 3)
-	c.R.Floor("C14.R2", 4)
+	// Read, ReadN, Skip, Clear consume; Write produces
+	apiFloor("C14.R1", 4, rIdx)
+	apiFloor("C14.R2", 5, rIdx, wIdx)
 
-	lenCall := func(v ssa.Value) bool {
-		call, ok := ir.Resolve(v).(*ssa.Call)
-		return ok && ir.StaticCallee(call) == lenFn
+	lenCall, capCall := k.lenCall, k.capCall
+	// the guard of an exit is computed by a helper the rules do not look into
+	opaqueGuard := func(fs []ir.Fact) bool {
+		for _, ft := range fs {
+			cm, ok := ft.Cmp()
+			if !ok {
+				continue
+			}
+			for _, o := range []ssa.Value{cm.X, cm.Y} {
+				if call, ok := ir.Resolve(o).(*ssa.Call); ok {
+					if g := ir.StaticCallee(call); g != nil && k.inPkg(g) && g != lenFn && g != capFn {
+						return true
+					}
+				}
+			}
+		}
+		return false
+	}
+	factsHave := func(fs []ir.Fact, pred func(ir.Cmp) bool) bool {
+		for _, ft := range fs {
+			if cm, ok := ft.Cmp(); ok && pred(cm) {
+				return true
+			}
+		}
+		return false
 	}
 	// R3 guards and classes
-	capCall := func(v ssa.Value) bool {
-		call, ok := ir.Resolve(v).(*ssa.Call)
-		return ok && ir.StaticCallee(call) == capFn
-	}
 	{
 		// Write
-		var st ssa.Instruction
+		var sts []ssa.Instruction
 		ir.Instrs(write, func(in ssa.Instruction) {
 			if s, ok := in.(*ssa.Store); ok {
-				if ia, ok := s.Addr.(*ssa.IndexAddr); ok && isBufLoad(ia.X) {
-					st = in
+				if ia, ok := s.Addr.(*ssa.IndexAddr); ok && k.bufDerived(ia.X) {
+					sts = append(sts, in)
 				}
 			}
 		})
-		if st == nil {
+		if len(sts) == 0 {
 			c.Decide("C14.R3", write, "Write stores under the not-full guard", nil, false, "Write has no store into the backing array")
-		} else {
-			ok := hasFactCmp(st.Block(), func(cm ir.Cmp) bool {
+		}
+		for _, st := range sts {
+			ok := factsHave(k.guardFacts(st.Block()), func(cm ir.Cmp) bool {
 				// not full: Len() != Cap(), Len() < Cap()
 				if lenCall(cm.X) && capCall(cm.Y) {
 					return cm.Op == token.NEQ || cm.Op == token.LSS
@@ -243,55 +841,87 @@ func runC14(c *Ctx) {
 		}
 		// failure exits wrap ErrExhausted
 		n := 0
-		for _, ret := range ir.Returns(write) {
-			ev := ir.ResultValue(ret, 0)
-			if ir.ClassifyErr(ev, ret.Block()) != ir.ErrNonNil {
+		for _, ep := range ir.ExitPoints(write) {
+			ev := ep.Result(0)
+			if ev == nil || ir.ClassifyErr(ev, ep.Block) != ir.ErrNonNil {
 				continue
 			}
 			n++
 			okCls := wrapsGlobal(ev, "ErrExhausted")
-			okEdge := hasFactCmp(ret.Block(), func(cm ir.Cmp) bool {
+			okEdge := factsHave(k.expandFacts(ep.Facts(), 0), func(cm ir.Cmp) bool {
 				return (lenCall(cm.X) && capCall(cm.Y) || capCall(cm.X) && lenCall(cm.Y)) && (cm.Op == token.EQL || cm.Op == token.GEQ || cm.Op == token.LEQ)
 			})
-			c.Decide("C14.R3", write, "full -> ErrExhausted", ret, okCls && okEdge, "the failure exit of Write is not the Len()==Cap() edge returning an error that wraps ErrExhausted")
+			c.Decide("C14.R3", write, "full -> ErrExhausted", ep.Ret, okCls && okEdge, "the failure exit of Write is not the Len()==Cap() edge returning an error that wraps ErrExhausted")
 		}
 		if n == 0 {
 			c.Decide("C14.R3", write, "full -> ErrExhausted", nil, false, "Write never fails")
 		}
+	}
+	// emptiness: Len() compared with 0, or the read index compared with the write index (Len() == 0 iff they are equal)
+	idxPair := func(a, b ssa.Value) bool {
+		_, ar := loadOfField(a, rIdx)
+		_, aw := loadOfField(a, wIdx)
+		_, br := loadOfField(b, rIdx)
+		_, bw := loadOfField(b, wIdx)
+		return (ar && bw) || (aw && br)
+	}
+	notEmpty := func(cm ir.Cmp) bool {
+		op, a, b := cm.Op, cm.X, cm.Y
+		if lenCall(b) {
+			a, b = b, a
+			op = ir.SwapOp(op)
+		}
+		if kk, isC := ir.ConstInt(b); lenCall(a) && isC {
+			return (op == token.NEQ && kk == 0) || (op == token.GTR && kk == 0) || (op == token.GEQ && kk == 1)
+		}
+		return op == token.NEQ && idxPair(a, b)
+	}
+	isEmpty := func(cm ir.Cmp) bool {
+		op, a, b := cm.Op, cm.X, cm.Y
+		if lenCall(b) {
+			a, b = b, a
+			op = ir.SwapOp(op)
+		}
+		if kk, isC := ir.ConstInt(b); lenCall(a) && isC {
+			return (op == token.EQL && kk == 0) || (op == token.LEQ && kk == 0) || (op == token.LSS && kk == 1)
+		}
+		return op == token.EQL && idxPair(a, b)
 	}
 	{
 		// Read
 		var ld ssa.Instruction
 		ir.Instrs(read, func(in ssa.Instruction) {
 			if u, ok := in.(*ssa.UnOp); ok && u.Op == token.MUL {
-				if ia, ok := u.X.(*ssa.IndexAddr); ok && isBufLoad(ia.X) && ld == nil {
+				if ia, ok := u.X.(*ssa.IndexAddr); ok && k.bufDerived(ia.X) && ld == nil {
 					ld = in
 				}
 			}
 		})
 		if ld == nil {
-			c.Decide("C14.R3", read, "Read loads under the not-empty guard", nil, false, "Read has no load from the backing array")
+			if k.loadsElsewhere(read) {
+				c.Undecided("C14.R3", read, "Read loads under the not-empty guard", nil, "Read has no load from the backing array itself: it takes the value through a helper or a callback, which this rule does not follow")
+			} else {
+				c.Decide("C14.R3", read, "Read loads under the not-empty guard", nil, false, "Read has no load from the backing array")
+			}
 		} else {
-			ok := hasFactCmp(ld.Block(), func(cm ir.Cmp) bool {
-				k, isC := ir.ConstInt(cm.Y)
-				return lenCall(cm.X) && isC && ((cm.Op == token.NEQ && k == 0) || (cm.Op == token.GTR && k == 0) || (cm.Op == token.GEQ && k == 1))
-			})
+			ok := factsHave(k.guardFacts(ld.Block()), notEmpty)
 			c.Decide("C14.R3", read, "Read loads under the not-empty guard", ld, ok, "the load of Read is not dominated by the Len()==0 test")
 		}
 		n := 0
-		for _, ret := range ir.Returns(read) {
-			ev := ir.ResultValue(ret, 1)
-			if ir.ClassifyErr(ev, ret.Block()) != ir.ErrNonNil {
+		for _, ep := range ir.ExitPoints(read) {
+			ev := ep.Result(1)
+			if ev == nil || ir.ClassifyErr(ev, ep.Block) != ir.ErrNonNil {
 				continue
 			}
 			n++
 			g := globalOf(ev)
 			okCls := g != nil && g.Pkg.Pkg.Path() == "io" && g.Name() == "EOF"
-			okEdge := hasFactCmp(ret.Block(), func(cm ir.Cmp) bool {
-				k, isC := ir.ConstInt(cm.Y)
-				return lenCall(cm.X) && isC && ((cm.Op == token.EQL && k == 0) || (cm.Op == token.LEQ && k == 0) || (cm.Op == token.LSS && k == 1))
-			})
-			c.Decide("C14.R3", read, "empty -> io.EOF", ret, okCls && okEdge, "the failure exit of Read is not the Len()==0 edge returning io.EOF")
+			okEdge := factsHave(k.expandFacts(ep.Facts(), 0), isEmpty)
+			if okCls && !okEdge && opaqueGuard(ep.Facts()) {
+				c.Undecided("C14.R3", read, "empty -> io.EOF", ep.Ret, "the io.EOF exit of Read is guarded by the result of a helper, which this rule does not follow")
+				continue
+			}
+			c.Decide("C14.R3", read, "empty -> io.EOF", ep.Ret, okCls && okEdge, "the failure exit of Read is not the Len()==0 edge returning io.EOF")
 		}
 		if n == 0 {
 			c.Decide("C14.R3", read, "empty -> io.EOF", nil, false, "Read never reports io.EOF")
@@ -299,48 +929,53 @@ func runC14(c *Ctx) {
 	}
 	{
 		// At
-		var ld *ssa.UnOp
+		var lds []*ssa.UnOp
 		ir.Instrs(at, func(in ssa.Instruction) {
 			if u, ok := in.(*ssa.UnOp); ok && u.Op == token.MUL {
 				if ia, ok := u.X.(*ssa.IndexAddr); ok && isBufLoad(ia.X) {
-					ld = u
+					lds = append(lds, u)
 				}
 			}
 		})
-		if ld == nil || len(at.Params) < 2 {
+		if len(lds) == 0 || len(at.Params) < 2 {
 			c.Decide("C14.R3", at, "At loads under the range guard", nil, false, "At has no load from the backing array")
 		} else {
 			idx := at.Params[1]
-			lower := hasFactCmp(ld.Block(), func(cm ir.Cmp) bool {
-				k, isC := ir.ConstInt(cm.Y)
-				return cm.X == ssa.Value(idx) && isC && ((cm.Op == token.GEQ && k == 0) || (cm.Op == token.GTR && k == -1))
-			})
-			upper := hasFactCmp(ld.Block(), func(cm ir.Cmp) bool {
-				return (cm.X == ssa.Value(idx) && lenCall(cm.Y) && cm.Op == token.LSS) || (lenCall(cm.X) && cm.Y == ssa.Value(idx) && cm.Op == token.GTR)
-			})
-			c.Decide("C14.R3", at, "At loads under the range guard", ld, lower && upper, "the load of At is not dominated by both idx>=0 and idx<Len()")
+			isIdx := func(v ssa.Value) bool { return ir.Resolve(v) == ssa.Value(idx) }
+			lowerOK := func(cm ir.Cmp) bool {
+				kk, isC := ir.ConstInt(cm.Y)
+				return isIdx(cm.X) && isC && ((cm.Op == token.GEQ && kk == 0) || (cm.Op == token.GTR && kk == -1))
+			}
+			upperOK := func(cm ir.Cmp) bool {
+				return (isIdx(cm.X) && lenCall(cm.Y) && cm.Op == token.LSS) || (lenCall(cm.X) && isIdx(cm.Y) && cm.Op == token.GTR)
+			}
+			for _, ld := range lds {
+				lower := hasFactCmp(ld.Block(), lowerOK)
+				upper := hasFactCmp(ld.Block(), upperOK)
+				c.Decide("C14.R3", at, "At loads under the range guard", ld, lower && upper, "the load of At is not dominated by both idx>=0 and idx<Len()")
+			}
 			// the out-of-range edges panic: no Return is reachable where idx<0 or idx>=Len() holds
 			for _, ret := range ir.Returns(at) {
-				lo := hasFactCmp(ret.Block(), func(cm ir.Cmp) bool {
-					k, isC := ir.ConstInt(cm.Y)
-					return cm.X == ssa.Value(idx) && isC && cm.Op == token.GEQ && k == 0
-				})
-				hi := hasFactCmp(ret.Block(), func(cm ir.Cmp) bool { return cm.X == ssa.Value(idx) && lenCall(cm.Y) && cm.Op == token.LSS })
+				lo := hasFactCmp(ret.Block(), lowerOK)
+				hi := hasFactCmp(ret.Block(), upperOK)
 				c.Decide("C14.R3", at, "out of range -> panic", ret, lo && hi, "At can return normally for an index out of range")
 			}
 			// R5 fold operator
-			ia := ld.X.(*ssa.IndexAddr)
-			c.foldOperator(at, ia, rIdx, isLenBuf)
+			k.foldOperator(at, lds)
 		}
 	}
 	c.R.Floor("C14.R3", 6)
 
 	// R6 request arguments are clamped against Len() before they enter index arithmetic
-	for _, fn := range methods {
-		if len(fn.Blocks) == 0 {
-			continue
+	for _, fn := range scope {
+		if fn.Parent() != nil {
+			continue // a function literal: its parameters are not a caller's request
 		}
-		for _, prm := range fn.Params[1:] {
+		prms := fn.Params
+		if fn.Signature.Recv() != nil && len(prms) > 0 {
+			prms = prms[1:]
+		}
+		for _, prm := range prms {
 			if !types.Identical(prm.Type(), types.Typ[types.Int]) || fn == at {
 				continue
 			}
@@ -450,7 +1085,7 @@ func runC14(c *Ctx) {
 					l = cv.X
 				}
 				if bo, isBin := l.(*ssa.BinOp); isBin && bo.Op == token.ADD {
-					if k, isC := ir.ConstInt(bo.Y); isC && k == 1 && ir.Resolve(bo.X) == ssa.Value(ctor.Params[0]) {
+					if kk, isC := ir.ConstInt(bo.Y); isC && kk == 1 && ir.Resolve(bo.X) == ssa.Value(ctor.Params[0]) {
 						ok = true
 					}
 				}
@@ -460,7 +1095,7 @@ func runC14(c *Ctx) {
 		ok = false
 		for _, ret := range ir.Returns(capFn) {
 			if bo, isBin := ir.Resolve(ret.Results[0]).(*ssa.BinOp); isBin && bo.Op == token.SUB && isLenBuf(bo.X) {
-				if k, isC := ir.ConstInt(bo.Y); isC && k == 1 {
+				if kk, isC := ir.ConstInt(bo.Y); isC && kk == 1 {
 					ok = true
 				}
 			}
@@ -488,57 +1123,82 @@ func wrapsGlobal(v ssa.Value, name string) bool {
 	return false
 }
 
-// foldOperator is C14.R5: index = x - d with d = phi(0, len(buf)) (or phi(x, x-len(buf))) selected by x >= len(buf).
-func (c *Ctx) foldOperator(fn *ssa.Function, ia *ssa.IndexAddr, rIdx *types.Var, isLenBuf func(ssa.Value) bool) {
-	idx := ir.Resolve(ia.Index)
-	var phi *ssa.Phi
-	if bo, ok := idx.(*ssa.BinOp); ok && bo.Op == token.SUB {
-		phi, _ = ir.Resolve(bo.Y).(*ssa.Phi)
-	} else if p, ok := idx.(*ssa.Phi); ok {
-		phi = p
+// foldOperator is C14.R5. The element index of At folds x = read index + i back into the array. Accepted spellings of
+// the fold: x - d with d = phi(0, len(buf)); phi(x, x-len(buf)); a separate load at x-len(buf) next to the one at x;
+// x % len(buf). In every spelling but the last, the alternative that subtracts len(buf) must be selected by
+// x >= len(buf) (x > len(buf) leaves slot len(buf), which does not exist, to the unfolded alternative).
+func (k *c14) foldOperator(fn *ssa.Function, lds []*ssa.UnOp) {
+	c := k.Ctx
+	isLenBuf := k.isLenBuf
+	type alt struct {
+		facts []ir.Fact
 	}
-	if phi == nil {
-		c.Undecided("C14.R5", fn, "fold selected by >= len(buf)", ia, "the element index of At is not of the form x - phi(0,len(buf)) or phi(x, x-len(buf))")
-		return
-	}
-	// the edge that brings len(buf) (or the subtraction) into the phi must be the true edge of x >= len(buf)
-	ok, found := false, false
-	for i, e := range phi.Edges {
-		folds := isLenBuf(e)
-		if bo, isBin := ir.Resolve(e).(*ssa.BinOp); isBin && bo.Op == token.SUB && isLenBuf(bo.Y) {
-			folds = true
+	var folded []alt
+	modulo := false
+	var first *ssa.IndexAddr
+	for _, ld := range lds {
+		ia := ld.X.(*ssa.IndexAddr)
+		if first == nil {
+			first = ia
 		}
-		if !folds {
-			continue
+		idx := ir.Resolve(ia.Index)
+		subLen := func(v ssa.Value) bool {
+			bo, isBin := ir.Resolve(v).(*ssa.BinOp)
+			return isBin && bo.Op == token.SUB && isLenBuf(bo.Y)
 		}
-		found = true
-		pred := phi.Block().Preds[i]
-		for _, f := range append(ir.Facts(pred), edgeFacts(pred, phi.Block())...) {
-			cm, isCmp := f.Cmp()
-			if !isCmp {
-				continue
-			}
-			op, a, b := cm.Op, cm.X, cm.Y
-			if isLenBuf(a) {
-				a, b = b, a
-				op = ir.SwapOp(op)
-			}
-			if isLenBuf(b) {
-				if op == token.GEQ {
-					ok = true
-				}
-				if op == token.GTR {
-					c.Decide("C14.R5", fn, "fold selected by >= len(buf)", ia, false, "the index is folded back only when it is > len(buf): for read index + i == len(buf) the access hits slot len(buf), which does not exist")
-					return
+		switch x := idx.(type) {
+		case *ssa.BinOp:
+			switch {
+			case x.Op == token.REM && isLenBuf(x.Y):
+				modulo = true
+			case x.Op == token.SUB && isLenBuf(x.Y):
+				folded = append(folded, alt{ir.Facts(ia.Block())})
+			case x.Op == token.SUB:
+				if phi, ok := ir.Resolve(x.Y).(*ssa.Phi); ok {
+					for i, e := range phi.Edges {
+						if isLenBuf(e) {
+							folded = append(folded, alt{c14edgeFacts(phi, i)})
+						}
+					}
 				}
 			}
+		case *ssa.Phi:
+			for i, e := range x.Edges {
+				if isLenBuf(e) || subLen(e) {
+					folded = append(folded, alt{c14edgeFacts(x, i)})
+				}
+			}
 		}
 	}
-	if !found {
-		c.Undecided("C14.R5", fn, "fold selected by >= len(buf)", ia, "no fold by len(buf) found in the element index of At")
+	if len(folded) == 0 {
+		if modulo {
+			c.Decide("C14.R5", fn, "fold selected by >= len(buf)", first, true, "")
+			return
+		}
+		c.Undecided("C14.R5", fn, "fold selected by >= len(buf)", first, "no fold by len(buf) found in the element index of At (x - phi(0,len(buf)), phi(x, x-len(buf)), a load at x-len(buf), x % len(buf))")
 		return
 	}
-	c.Decide("C14.R5", fn, "fold selected by >= len(buf)", ia, ok, "the fold of the element index is not selected by the test >= len(buf)")
+	// the alternative that brings len(buf) in must be the true edge of x >= len(buf)
+	ok := true
+	for _, a := range folded {
+		sel, gtr := false, false
+		k.cmpVsLenBuf(a.facts, func(op token.Token, _ ssa.Value) {
+			if op == token.GEQ {
+				sel = true
+			}
+			if op == token.GTR {
+				gtr = true
+			}
+		})
+		if gtr {
+			c.Decide("C14.R5", fn, "fold selected by >= len(buf)", first, false, "the index is folded back only when it is > len(buf): for read index + i == len(buf) the access hits slot len(buf), which does not exist")
+			return
+		}
+		if !sel {
+			ok = false
+		}
+	}
+	c.Decide("C14.R5", fn, "fold selected by >= len(buf)", first, ok, "the fold of the element index is not selected by the test >= len(buf)")
 }
 
 func edgeFacts(from, to *ssa.BasicBlock) []ir.Fact {
